@@ -18,6 +18,9 @@ from .values import (EngineSignal, Unsupported, SInt, SBool, SBytes, SBuf, SMBuf
 from .explore import LoopBound
 
 
+_NOVAL = object()
+
+
 class _Return(EngineSignal):
     def __init__(self, v):
         self.v = v
@@ -365,6 +368,83 @@ class Frame:
 
     def s_Pass(self, s):
         pass
+
+    def s_Nonlocal(self, s):
+        raise Unsupported("nonlocal")
+
+    def s_Match(self, s):
+        """structural pattern matching (value, singleton, or, capture / wildcard, sequence, mapping patterns)"""
+        subject = self.ev(s.subject)
+        for case in s.cases:
+            binds = {}
+            if self._match(case.pattern, subject, binds):
+                saved = {k: self.env.get(k, _NOVAL) for k in binds}
+                self.env.update(binds)
+                if case.guard is None or self.I.truth(self.ev(case.guard)):
+                    self.exec_block(case.body)
+                    return
+                for k, v in saved.items():  # a failed guard leaves the names bound in CPython too; harmless either way
+                    if v is _NOVAL:
+                        self.env.pop(k, None)
+                    else:
+                        self.env[k] = v
+
+    def _match(self, pat, subject, binds):
+        if isinstance(pat, ast.MatchValue):
+            return self.I.truth(self.I.compare(ast.Eq, subject, self.ev(pat.value)))
+        if isinstance(pat, ast.MatchSingleton):
+            return subject is pat.value
+        if isinstance(pat, ast.MatchOr):
+            for p in pat.patterns:
+                b = {}
+                if self._match(p, subject, b):
+                    binds.update(b)
+                    return True
+            return False
+        if isinstance(pat, ast.MatchAs):
+            if pat.pattern is not None and not self._match(pat.pattern, subject, binds):
+                return False
+            if pat.name is not None:
+                binds[pat.name] = subject
+            return True
+        if isinstance(pat, ast.MatchSequence):
+            if isinstance(subject, (str, bytes, bytearray, SBytes, SBuf, SMBuf, SZeros, dict)) or is_sym(subject) or not isinstance(subject, (list, tuple)):
+                if isinstance(subject, (list, tuple)):
+                    pass
+                else:
+                    return False
+            items = list(subject)
+            star = [i for i, p in enumerate(pat.patterns) if isinstance(p, ast.MatchStar)]
+            if not star:
+                if len(items) != len(pat.patterns):
+                    return False
+                return all(self._match(p, x, binds) for p, x in zip(pat.patterns, items))
+            k = star[0]
+            after = len(pat.patterns) - k - 1
+            if len(items) < k + after:
+                return False
+            if not all(self._match(p, x, binds) for p, x in zip(pat.patterns[:k], items[:k])):
+                return False
+            if after and not all(self._match(p, x, binds) for p, x in zip(pat.patterns[k + 1:], items[len(items) - after:])):
+                return False
+            if pat.patterns[k].name is not None:
+                binds[pat.patterns[k].name] = items[k:len(items) - after]
+            return True
+        if isinstance(pat, ast.MatchMapping):
+            if not isinstance(subject, dict):
+                return False
+            used = []
+            for kexpr, p in zip(pat.keys, pat.patterns):
+                key = self.ev(kexpr)
+                if key not in subject:
+                    return False
+                used.append(key)
+                if not self._match(p, subject[key], binds):
+                    return False
+            if pat.rest is not None:
+                binds[pat.rest] = {k: v for k, v in subject.items() if k not in used}
+            return True
+        raise Unsupported("match pattern %s" % type(pat).__name__)
 
     def s_FunctionDef(self, s):
         """an inner function: a closure over this frame's variables (read-only use of them; no decorators, no yield)"""
@@ -1206,6 +1286,11 @@ class Frame:
                             self.env[n.id] = saved[n.id]
                         else:
                             self.env.pop(n.id, None)
+
+    def e_NamedExpr(self, e):
+        v = self.ev(e.value)
+        self.store(e.target, v)
+        return v
 
     def e_Yield(self, e):
         ys = getattr(self, "yielded", None)
